@@ -16,6 +16,7 @@ CONSTANTS Keys,      \* normalised keys (strings naming them)
           IntVal,    \* function: integer keys -> their value (for borders), e.g. [i1 |-> 1, ...]
           MaxSteps,
           ViewHist,
+          EmitAll,   \* TRUE: emit a line per transition (exploration); FALSE: only when the history is complete (simulation)
           Travs      \* traversal policies allowed: subset of {"plain","update","clear","clearothers","updateothers"}
 
 VARIABLES map,   \* [Keys -> {"nil","v1","v2"}]
@@ -41,7 +42,7 @@ Init == map = [k \in Keys |-> "nil"] /\ n = 0 /\ out = <<>> /\ hist = <<>>
 Step(act, m, evs) ==
   /\ map' = m /\ n' = n + 1 /\ out' = out \o evs
   /\ hist' = Append(hist, [k |-> n + 1] @@ act)
-  /\ Emit([h |-> hist', ev |-> out', final |-> m, borders |-> Borders(m)])
+  /\ (IF EmitAll \/ n + 1 = MaxSteps THEN Emit([h |-> hist', ev |-> out', final |-> m, borders |-> Borders(m)]) ELSE TRUE)
 
 Can == n < MaxSteps
 
